@@ -1771,7 +1771,9 @@ dt_dtdiff(dt_dtdurtyp_t tgttyp, struct dt_dt_s d1, struct dt_dt_s d2)
 		res.d = dt_ddiff((dt_durtyp_t)tgttyp, d1.d, d2.d, dt ?: ns);
 		/* from here on in nanoseconds so a fraction borrows as well */
 		dt = dt * (int64_t)NANOS_PER_SEC + ns;
-		if (UNLIKELY(tgttyp == DT_DURBD && dt)) {
+		if (UNLIKELY(tgttyp == DT_DURBD &&
+			     !dt_sandwich_only_d_p(d1) &&
+			     !dt_sandwich_only_d_p(d2))) {
 			/* business days aren't 86400 seconds long, count the
 			 * whole ones from the earlier operand and express the
 			 * rest, weekends and all, in seconds */
